@@ -409,9 +409,10 @@ func (e *Engine) runOnce(ops []string, res *report.Result) *report.Failure {
 	okAtomic := dfs(true, n)
 	okBlocks := false
 	okReplace := false
-	if !okAtomic {
+	blockSearch := func() {
 		nodes = 0
 		atomicPop = true
+		dead = map[string]bool{}
 		okBlocks = dfs(false, n)
 		if !okBlocks && nodes < budget {
 			// … and with `AddOrReplace` as the two steps it is
@@ -425,6 +426,22 @@ func (e *Engine) runOnce(ops []string, res *report.Result) *report.Failure {
 				dead = map[string]bool{}
 				okReplace = dfs(false, n)
 			}
+		}
+	}
+	if !okAtomic {
+		blockSearch()
+		if !okBlocks && !okReplace && nodes >= budget {
+			// the block-level search ran out of budget: once more with ten times as much
+			budget *= 10
+			blockSearch()
+		}
+		if !okBlocks && !okReplace && nodes >= budget {
+			// Still undecided: the history is not atomic (that search is complete), but whether one of
+			// the recorded races of ProxyUpdate explains it could not be settled. An undecided search
+			// is not a finding; it is counted, and the sweep goes on with other histories.
+			res.Count("inconclusive:block-search-budget-exhausted:" + shapeOf(calls))
+			res.Notes = append(res.Notes, "block-level search budget exhausted on a non-atomic history (not classified): "+strings.Join(ops, " ; "))
+			return nil
 		}
 	}
 	res.Count(fmt.Sprintf("search-nodes<=%d", (nodes+99)/100*100))
@@ -445,8 +462,6 @@ func (e *Engine) runOnce(ops []string, res *report.Result) *report.Failure {
 		case okReplace:
 			return fail("oracle", what+" — explained at block level by a populate replacing a running proxy: AddOrReplace stops the old proxy and starts the new one in two steps, and a ProxyUpdate (which does not take the collection lock) acted in between",
 				"some sequential order", impl, "e7:C16:replace-stop-start-interleaved")
-		case nodes >= budget:
-			return fail("oracle", what+" (block-level search budget exhausted)", "some sequential order", impl, "e7:C16:not-linearizable:budget:"+shapeOf(calls))
 		default:
 			return fail("oracle", what+" — and no interleaving of the handlers' blocks explains it either", "some sequential order", impl, "e7:C16:not-linearizable:"+shapeOf(calls))
 		}
